@@ -22,8 +22,15 @@ def cases(tier, rng):
         ents = [0, 1, 2][:rng.randint(1, 3)]
         L = rng.randint(6, 30 if tier == 'thorough' else 14)
         init = {e: [c for c in menu if rng.random() < .7] for e in ents if rng.random() < .8}
+        # in a quarter of the cases every context is tied to gamepad 0, which is unplugged at some point (for good): the
+        # contexts go on being evaluated (their scripted conditions do not look at the device)
+        tied = rng.random() < .25
+        raws = None
+        if tied:
+            gone_at = rng.randrange(1, L)
+            raws = [raw(pads=[pad(0)] if k < gone_at else []) for k in range(L)]
         yield (build_scenario(rng, menu, ents, random_plan(rng, menu, ents, L, rng.randint(1, 8)), L, init,
-                              cfg=make_cfg(rng, menu, ents, L, blockers=rng.random() < .5), pauses=rng.random() < .4), 'random')
+                              cfg=make_cfg(rng, menu, ents, L, blockers=rng.random() < .5, pad=0 if tied else None), raws=raws, pauses=rng.random() < .4), 'random')
 
 def react_cases(tier, rng):
     import re
@@ -73,13 +80,13 @@ STAGES = [dict(name='reactions', mode='app', coq='Check.C02r', cases=react_cases
                     'reactions; the delivery order (closing events overtaking the rest of the frame) is compared with the model, and per (entity, action) every episode must be closed exactly once'),
           dict(name='episodes', mode='app', coq='Check.C02c', cases=cases, nontrivial=nontrivial, shard=25,
                exhaustive={'thorough': False, 'quick': True},
-               rule='real App, an exclusive and a shared context type, 2-3 entities, two actions per context driven by scripted states cycling through None/Ongoing/Fired (in half of the random cases also a plain blocker that fails now and then; in 40% the virtual clock is paused for some frames); '
+               rule='real App, an exclusive and a shared context type, 2-3 entities, two actions per context driven by scripted states cycling through None/Ongoing/Fired (in half of the random cases also a plain blocker that fails now and then; in 40% the virtual clock is paused for some frames; in a quarter all contexts are tied to a gamepad that gets unplugged); '
                     'exhaustive: every single op from {insert, remove, despawn, respawn, rebuild} x entity x type issued after a frame in which the state is Ongoing / Fired / None, '
                     'directly between frames and through Commands from an Update system (264 histories); thorough adds 2500 ordered pairs; random interleavings of 1-8 ops over 6-30 frames. '
                     'non-trivial = a terminal event is delivered; distinct = distinct scenario text')]
 CLAUSES_R = {1: 'an entity that does not hold the context received an event (or a joining one a Started from the old instance)', 2: 'an episode was closed twice or started twice (Started minus terminal events left {0,1})',
              4: 'a deactivated instance left an episode open (no terminal event) or closed it more than once', 8: 'panic', 9: 'malformed trace', 10: 'panic'}
-CLAUSES = {1: 'an event was delivered for an (entity, action) whose context instance is gone', 2: 'the events of a frame do not continue a well-formed episode (Started+companion, one Ongoing/Fired per frame, matching terminal)',
+CLAUSES = {7: 'an entity that got the context when nobody else held it joined an instance that is not at rest (something of an earlier instance survived the departure of its last holder)', 1: 'an event was delivered for an (entity, action) whose context instance is gone', 2: 'the events of a frame do not continue a well-formed episode (Started+companion, one Ongoing/Fired per frame, matching terminal)',
            3: 'an event carries a state other than the one the episode is in', 4: 'deactivation (remove / despawn / rebuild) did not close the open episode with exactly its terminal event (zero value, state None), or closed an idle one',
            5: 'events delivered outside the frame evaluation without a deactivation', 6: 'events delivered before the frame evaluation', 8: 'panic', 9: 'malformed trace', 10: 'panic'}
 def describe(stage, clause): return (CLAUSES_R if stage == 'reactions' else CLAUSES).get(clause, 'clause %d' % clause)
